@@ -617,6 +617,10 @@ package tchannel
 //@             off(f.flagsRef) + len(f.flagsRef) - off(f.checksumRef) - len(f.checksumRef))
 //@   label checksum-stamped
 //@   ensures len(f.checksumRef) == 4 ==> be32(f.checksumRef, 0) == cssum(cs(csbase(f.checksum)))
+// (once released, the running checksum belongs to the pool and to whoever gets
+// it next: its sum must be in the fragment before it is given back)
+//@   label checksum-stamped-before-it-is-given-back
+//@   atcall Release len(f.checksumRef) == 4 ==> be32(f.checksumRef, 0) == cssum(cs(csbase(f.checksum)))
 //@   label more-flag-set-iff-more
 //@   ensures hasMoreFragments && f.flagsRef != nil ==> u8at(f.flagsRef, 0) == 1
 //@   ensures !hasMoreFragments ==> u8at(f.flagsRef, 0) == old(u8at(f.flagsRef, 0))
@@ -1063,6 +1067,11 @@ package tchannel
 //@   modifies all
 //@   label errors-are-sticky
 //@   ensures old(r.err) != nil ==> err == old(r.err) && n == 0
+// (a failure is not forgotten: whatever made Read fail -- a receiver error, a
+// checksum mismatch, a checksum TYPE that changed between fragments -- fails
+// every later call as well, so that no caller can read on past a bad fragment)
+//@   label a-failed-read-stays-failed
+//@   ensures err != nil && err != io.EOF ==> r.err != nil
 //@   label read-only-inside-an-argument
 //@   ensures old(r.err) == nil && old(r.state) != fragmentingReadInArgument && old(r.state) != fragmentingReadInLastArgument ==> err != nil && n == 0
 //@   label full-read-on-success
